@@ -24,7 +24,7 @@ ASSUMPTIONS = ['variable-like nodes are those of the form NAME[...]; function na
                'a term whose branch could not be reached is counted, never reported',
                'equations containing verbatim fragments are excluded from the no-influence clause']
 ANCHORS = [('fsic/tools.py', 'symbols_to_graph')]
-REQUIRED_COUNTERS = {'graphs_compared': 150, 'edges_compared': 500, 'isolated_evaluations': 500, 'perturbations': 3000, 'reads_checked': 1000}
+REQUIRED_COUNTERS = {'multi_target_graphs': 20, 'graphs_compared': 150, 'edges_compared': 500, 'isolated_evaluations': 500, 'perturbations': 3000, 'reads_checked': 1000}
 LEVEL_TEXT = ('Reference dependency sets from the AST compared with the graph, and dynamic confirmation by perturbation and recorded reads on the built model.')
 LEVEL_NOTE = 'Trusted: AST term enumeration in fsicverif/gen.py; recording arrays.'
 TECHNIQUE = 'reference dependency sets + perturbation / recorded-read monitor'
@@ -165,6 +165,94 @@ def one_program(ctx, prog, script, rng):
                 ctx.count('conditional_terms_unreached', len(missing))
 
 
+def multi_target(ctx, prog, rng):
+    """A statement with several left-hand-side terms (`A, B = e1, e2`): one node per left-hand-side term, each
+    carrying the equation, each with an edge from every right-hand-side term of that equation; dynamically, the
+    statement reads exactly those terms and no other cell influences either target."""
+    import fsic
+    from fsic import tools
+    eqs = [e for e in prog.equations() if not e.has(gen.Verb) and not e.has(gen.Named)]
+    if len(prog.stmts) != len(list(prog.equations())) or len(eqs) != len(prog.stmts):
+        return
+    k = rng.choice([2, 2, 3])
+    if len(eqs) < k or len({e.lhs.name for e in eqs}) != len(eqs):
+        return
+    lay = gen.Layout(None)
+    merged, rest = eqs[:k], eqs[k:]
+    line = ', '.join(gen.render_var(e.lhs, 'script', lay) for e in merged) + ' = ' + ', '.join('(' + gen.render(e.rhs, 'script', lay) + ')' for e in merged)
+    script = '\n'.join([line] + [gen.render_eq(e, 'script') for e in rest])
+    case = {'script': script, 'multi_target': True}
+    ctx.evaluation(script, nontrivial=True, sample={'script': script})
+    try:
+        symbols = fsic.parse_model(script)
+        G = tools.symbols_to_graph(symbols)
+        Model = fsic.build_model(symbols)
+    except parser_errors():
+        ctx.count('program_rejected')
+        return
+    ctx.count('multi_target_graphs')
+    rhs_terms = {node_name(tm) for e in merged for tm in list(e.terms())[1:]}
+    by_name = {x.name: x for x in symbols if x.type.name == 'ENDOGENOUS'}
+    for e in merged:
+        y = node_name(e.lhs)
+        if y not in G.nodes or G.nodes[y].get('equation') != by_name[e.lhs.name].equation:
+            ctx.violation('graph-node-equation', f'left-hand-side term {y} of {line!r} is not a node carrying the equation', case)
+            return
+        got = {a for a, b in G.edges if b == y and varlike(a)}
+        if got != rhs_terms:
+            ctx.violation('graph-edges', f'edges into {y} of the multi-target statement {line!r}: only in graph {sorted(got - rhs_terms)}, only in script {sorted(rhs_terms - got)}', case)
+            return
+    ex_l = max([0] + [-tm.off for e in eqs for tm in e.terms()])
+    ex_d = max([0] + [tm.off for e in eqs for tm in e.terms()])
+    n, p = ex_l + ex_d + 2, ex_l
+    names = list(Model.NAMES)
+    code = compile(by_name[merged[0].lhs.name].code, '<statement>', 'exec')
+    conditional = any(e.has(gen.IfExp) or e.has(gen.Bool) for e in merged)
+    in_edges = {(a.split('[')[0], offset_of(a)) for a in rhs_terms}
+    data = ref.make_data(names, n, rng, 'positive')
+
+    def run(perturb=None):
+        m = Model(range(n))
+        for nm in names:
+            m.__dict__['_' + nm][:] = data[nm]
+        if perturb:
+            m.__dict__['_' + perturb[0]][perturb[1]] += 1.75
+        log = rec.install(m) if perturb is None else None
+        with ref.quiet():
+            exec(code, {'self': m, 't': p, 'np': np})
+        if log is not None:
+            log.enabled = False
+        return m, log
+
+    try:
+        m, log = run()
+    except Exception:
+        ctx.count('isolated_evaluation_raised')
+        return
+    ctx.count('isolated_evaluations')
+    reads = {(nm, int(i) - p) for kk, nm, i in log if kk == 'r'}
+    if not reads <= in_edges or (not conditional and reads != in_edges):
+        ctx.violation('edge-never-read' if reads <= in_edges else 'read-without-edge', f'evaluating {line!r} read {sorted(reads)}, the graph has in-edges {sorted(in_edges)}', case)
+        return
+    base = {e.lhs.name: float(rec.plain(m, e.lhs.name)[p + e.lhs.off]) for e in merged}
+    targets = {(e.lhs.name, p + e.lhs.off) for e in merged}
+    for nm in names:
+        for q in range(n):
+            if (nm, q - p) in in_edges or (nm, q) in targets:
+                continue
+            try:
+                m2, _ = run((nm, q))
+            except Exception:
+                continue
+            ctx.count('perturbations')
+            for e in merged:
+                got = float(m2.__dict__['_' + e.lhs.name][p + e.lhs.off])
+                b = base[e.lhs.name]
+                if not (got == b or (got != got and b != b)):
+                    ctx.violation('influence-without-edge', f'perturbing {nm}[{q}] changed {node_name(e.lhs)} although the graph has no such edge ({line!r})', case)
+                    return
+
+
 def offset_of(node):
     inner = node.split('[', 1)[1][:-1]
     if inner == 't':
@@ -183,6 +271,7 @@ def run_shard(ctx):
         nterms = sum(len(list(e.terms())) - 1 for e in prog.equations())
         ctx.evaluation(script, nontrivial=nterms > 0, sample={'script': script})
         one_program(ctx, prog, script, rng)
+        multi_target(ctx, prog, rng)
     V, N, B, E, P = gen.Var, gen.Num, gen.Bin, gen.Eq, gen.Program
     corner = [P([E(V('Y'), B('+', V('Y', off=-1), N('1')))]), P([E(V('Y'), B('+', V('Y'), V('X')))]), P([E(V('Y', off=-1), V('X', off=1))]),
               P([E(V('Y'), B('*', V('a', 'param', 0), V('e', 'error', -2))), E(V('Z'), V('Y', off=-1))]), P([E(V('Y'), N('3'))])]
@@ -194,5 +283,8 @@ def run_shard(ctx):
 
 
 def replay(ctx, case):
+    if case.get('multi_target'):
+        ctx.inconclusive_because('multi-target cases are replayed by re-running the shard with the same VERIF_SEED')
+        return
     ctx.evaluation(case['script'], nontrivial=True)
     one_program(ctx, gen.from_json(case['program']), case['script'], ctx.rng('c20'))
